@@ -127,7 +127,8 @@ def run_case(kind, q):
         warnings.simplefilter("ignore")
         pattern = impl.pattern_from(q["pattern"])
         shape = tuple(q["shape"])
-        frames = np.stack([impl.noise_frame(rng, shape, fk) for fk in q["frame_kinds"]])
+        frames = np.stack([np.zeros(shape, np.float32) if fk == "zero" else impl.noise_frame(rng, shape, fk)
+                           for fk in q["frame_kinds"]])
         if q.get("dtype"):
             frames = np.round(frames).clip(0, 60000).astype(q["dtype"])
             if q.get("level"):       # integer counts on a large constant level (summed / offset detector data)
@@ -239,7 +240,8 @@ def gen(rng, k):
     itemsize = 4
     full = (2 * c) ** 2 * itemsize
     return {"seed": int(rng.integers(1 << 30)), "pattern": pat, "shape": shape,
-            "frame_kinds": [("poisson", "gauss", "disks")[int(rng.integers(3))] for _ in range(nfr)],
+            "frame_kinds": [("poisson", "gauss", "disks", "zero")[int(rng.integers(4))] if k % 4 == 1 else
+                            ("poisson", "gauss", "disks")[int(rng.integers(3))] for _ in range(nfr)],
             "peaks": peaks.tolist(), "zero_shift": zs, "partitions": partitions_of(rng, nfr),
             "limit": [None, 1, full, 2 * full + 3, npk * full, 10 * npk * full][k % 6],
             "upsample": [False, 4][(k // 3) % 2], "backend": [UDF.BACKEND_NUMPY, UDF.BACKEND_SPARSE_COO][(k // 2) % 2],
